@@ -14,6 +14,7 @@ import (
 	"encoding/hex"
 	"errors"
 	"fmt"
+	"os"
 	"io"
 	"net"
 	"net/http"
@@ -21,6 +22,7 @@ import (
 	"strconv"
 	"strings"
 	"sync"
+	"sync/atomic"
 	"testing"
 	"time"
 
@@ -92,6 +94,18 @@ type upstreamSrv struct {
 	custom http.HandlerFunc // replaces the scripted handler (set before traffic starts)
 }
 
+var upstreamPortCursor int64
+
+func upstreamIP() string {
+	pid := os.Getpid()
+	return fmt.Sprintf("127.%d.%d.%d", 64+(pid>>16)&63, (pid>>8)&255, 1+pid&127)
+}
+
+func nextUpstreamPort() int {
+	n := atomic.AddInt64(&upstreamPortCursor, 1)
+	return 10000 + int((int64(os.Getpid()%97)*211+n)%20000)
+}
+
 func newUpstream(name string) *upstreamSrv {
 	u := &upstreamSrv{name: name, specs: map[string]*respSpec{}}
 	if err := u.Start(); err != nil {
@@ -107,17 +121,26 @@ func (u *upstreamSrv) Start() error {
 		return nil
 	}
 	addr := u.addr
-	if addr == "" {
-		addr = "127.0.0.1:0"
-	}
 	var ln net.Listener
 	var err error
-	for i := 0; i < 50; i++ {
-		ln, err = net.Listen("tcp", addr)
-		if err == nil {
-			break
+	if addr == "" {
+		// a stopped upstream has to stay unreachable: its address is on a loopback IP of this
+		// process alone and its port below the ephemeral range, so that neither another process
+		// nor an outgoing connection of this one (TCP self-connect) can ever occupy it
+		for i := 0; i < 2000; i++ {
+			ln, err = net.Listen("tcp", fmt.Sprintf("%s:%d", upstreamIP(), nextUpstreamPort()))
+			if err == nil {
+				break
+			}
 		}
-		time.Sleep(20 * time.Millisecond)
+	} else {
+		for i := 0; i < 50; i++ {
+			ln, err = net.Listen("tcp", addr)
+			if err == nil {
+				break
+			}
+			time.Sleep(20 * time.Millisecond)
+		}
 	}
 	if err != nil {
 		return err
